@@ -13,6 +13,7 @@ Statements:
   ["create", KIND, value_e, inithex, salt_e, flagoff]
   ["return", off, size] ["revert", off, size] ["stop"] ["invalid"] ["underflow"] ["badjump"]
   ["raw", hex]
+  ["mstorex", off_e, val_e] ["returnx", off_e, size] ["cdcopyx", dst_e, src, size]   (computed offsets; expr ["mloadx", e])
 """
 
 from __future__ import annotations
@@ -58,6 +59,8 @@ class Compiler:
             return self.expr(e[1]) + ["TLOAD"]
         if k == "mload":
             return [("PUSH", e[1]), "MLOAD"]
+        if k == "mloadx":  # MLOAD at a computed offset
+            return self.expr(e[1]) + ["MLOAD"]
         if k == "sha":
             return [("PUSH", e[2]), ("PUSH", e[1]), "SHA3"]
         if k == "mapkey":
@@ -87,6 +90,12 @@ class Compiler:
         k = s[0]
         if k == "mstore":
             return self.expr(s[2]) + [("PUSH", s[1]), "MSTORE"]
+        if k == "mstorex":  # MSTORE at a computed offset: ["mstorex", off_e, val_e]
+            return self.expr(s[2]) + self.expr(s[1]) + ["MSTORE"]
+        if k == "returnx":  # RETURN with a computed offset: ["returnx", off_e, size]
+            return [("PUSH", s[2])] + self.expr(s[1]) + ["RETURN"]
+        if k == "cdcopyx":  # CALLDATACOPY to a computed destination: ["cdcopyx", dst_e, src, size]
+            return [("PUSH", s[3]), ("PUSH", s[2])] + self.expr(s[1]) + ["CALLDATACOPY"]
         if k == "mstore8":
             return self.expr(s[2]) + [("PUSH", s[1]), "MSTORE8"]
         if k == "sstore":
